@@ -327,7 +327,15 @@ class AnsatzWorld(World):
             th = self._theta_for(op, n)
             circ_id = id(a.circuit)
             try:
-                quiet(a.update_var_params, np.array(th) if op.get("seed", 0) % 2 else list(th))
+                arg = np.array(th) if op.get("seed", 0) % 2 else list(th)
+                if op.get("seed", 0) % 3 == 0 and n > 0 and all(isinstance(v, float) for v in th):
+                    # the caller's own long-lived array, overwritten in place before every call (optimisation loop)
+                    if getattr(self, "user_x", None) is None or len(self.user_x) != n:
+                        self.user_x = np.zeros(n)
+                    self.user_x[:] = th
+                    arg = self.user_x
+                    ctx.probe("C07.caller_owned_parameter_array_reused")
+                quiet(a.update_var_params, arg)
             except Exception as ex:
                 ctx.outcome(k, "refused-unexpectedly")
                 V.append(Violation("C07", "unexpected-refusal", site + ":update_var_params", {"exception": repr(ex)[:300], "theta": th[:10], "n": n, "config": cfg}))
